@@ -4,8 +4,8 @@ HARNESS = "harness/c08_string.py"
 MODE = "src"
 EXPLANATION = ("For each length L up to the bound all 256^L byte strings are one symbolic input; the per-byte branches of the codec are "
                "if-converted so each length is a single path whose obligations z3 discharges position by position.")
-BOUNDS = {"quick": "every byte string of every length 0..24 and of the lengths 31..33, 63..65, 127, 128 (size-threshold boundaries) (both length parities, both position parities, all 256 byte values at every position)",
-          "thorough": "every byte string of every length 0..128 and of the lengths 255, 256, 257"}
+BOUNDS = {"quick": "every byte string of every length 0..24 and of the lengths 31..33, 63..65, 127, 128 (size-threshold boundaries) (both length parities, both position parities, all 256 byte values at every position); length 513; images again after earlier calls on other strings",
+          "thorough": "every byte string of every length 0..128 and of the lengths 255, 256, 257; lengths 513, 1025, 2049"}
 OUTSIDE = "byte strings longer than the bound"
 ASSUMPTIONS = ["bytearray cells are integers 0..255 (enforced on every store, as CPython does)"]
 
